@@ -48,7 +48,9 @@ ASSUMPTIONS = [
 ]
 REQUIRED_CATEGORIES = [
     "charnock_elements", "charnock_nan_in_nan_out", "charnock_iterations_needed", "charnock_viscous",
-    "charnock_monotone_pairs", "charnock_scalar_input", "charnock_dataarray_input",
+    "charnock_monotone_pairs", "charnock_scalar_input", "charnock_dataarray_input", "charnock_histories",
+    "charnock_history_prior_call_raised", "janssen_ustar_alias_compared", "tail_cases", "tail_compared",
+    "tail_ratio<0.5", "tail_0.5<=ratio<1", "tail_1<=ratio<2", "tail_ratio>=2", "tail_no_critical_height_zero",
     "janssen_cases", "janssen_single_root_checked", "janssen_wind_opposing",
     "janssen_finite_depth", "janssen_ustar_input",
 ]
@@ -246,6 +248,40 @@ def run_charnock(unit):
             check_call("pair", [P[j], P[i]], forms["ndarray"], None)
     c.case({"pairs": len(P)})
 
+    # histories: the solver keeps module state (a recursion-depth counter that is not restored when an exception
+    # leaves it); every ordered sequence of <= 2 prior calls from the alphabet below is followed by the reduced
+    # lattice (array and singletons) with the same oracle.  Prior calls may raise - that is their purpose.
+    from ocean_science_utilities.tools.solvers import Configuration
+
+    def prior(kind):
+        try:
+            if kind == "empty_array":
+                zfun(np.array([]), charnock_constant=alpha, viscous_constant=cvisc)
+            elif kind == "empty_dataarray":
+                zfun(xarray.DataArray(np.array([]), dims=("x",)), charnock_constant=alpha, viscous_constant=cvisc)
+            elif kind == "not_converged_error":
+                zfun(np.array([0.5, 30.0]), charnock_constant=alpha, viscous_constant=cvisc,
+                     configuration=Configuration(max_iter=1, error_if_not_converged=True))
+            elif kind == "wrong_type":
+                zfun("ten", charnock_constant=alpha, viscous_constant=cvisc)
+            elif kind == "normal":
+                zfun(np.array([7.0, 21.0]), charnock_constant=alpha, viscous_constant=cvisc)
+        except Exception:  # noqa
+            c.cat("charnock_history_prior_call_raised")
+
+    KINDS = ["empty_array", "empty_dataarray", "not_converged_error", "wrong_type", "normal"]
+    Ured = U[:: max(1, n // 10)]
+    histories = [()] + [(a,) for a in KINDS] + [(a, b) for a in KINDS for b in KINDS]
+    for hist in histories:
+        for k in hist:
+            prior(k)
+        tag = "after[" + ",".join(hist) + "]"
+        c.cat("charnock_histories")
+        check_call(tag + ":ndarray", list(Ured), forms["ndarray"], None)
+        for u in Ured:
+            check_call(tag + ":float", [u], scalar_forms["float"], None)
+    c.case({"histories": len(histories), "n": len(Ured)})
+
     for u in U:
         g = wu_guess(u)
         if abs(ch_rhs(g, u, alpha, cvisc) - g) > ch_tolerance(g, u, alpha, cvisc):
@@ -324,6 +360,10 @@ def units(tier):
             us.append({"name": f"charnock:alpha={a}:visc={v}", "kind": "charnock", "alpha": a, "visc": v, "cost": 1})
     ax = janssen_axes(tier)
     for g in ax["grids"]:
+        for dep in ([float("inf")] if tier == "quick" else DEPTHS):
+            us.append({"name": f"tail:{g}:depth={dep}", "kind": "tail", "grid": g, "depth": dep, "shapes": ax["shapes"],
+                       "mean": 45.0, "width": 40.0, "cost": 20})
+    for g in ax["grids"]:
         for sh in ax["shapes"]:
             for dep in DEPTHS:
                 for w in WIDTHS:
@@ -367,8 +407,14 @@ def run_janssen(unit):
                     return xarray.DataArray(np.asarray(x, dtype=float), dims=spec.dims_space_time,
                                             coords=spec.coords_space_time)
 
-                winds = [("u10", u) for u in U10S[unit["tier"]]] + [("friction_velocity", u) for u in USTARS]
+                # input-type alphabet {"u10", "friction_velocity", "ustar"}: "ustar" is the documented alias of
+                # "friction_velocity" (TWindInputType) and must give the identical roughness
+                winds = ([("u10", u) for u in U10S[unit["tier"]]] + [("friction_velocity", u) for u in USTARS]
+                         + [("ustar", u) for u in USTARS])
+                z_fv = {}
                 for wtype, w in winds:
+                    # the balance is evaluated with stress(..., "u10" / "friction_velocity"), never through the alias
+                    stype = "u10" if wtype == "u10" else "friction_velocity"
                     for off in OFFSETS:
                         wd = (mean + off) % 360.0
                         key = {"part": "janssen", "grid": g, "shape": shape, "hs": hs, "fp": fp, "mean": mean,
@@ -377,8 +423,8 @@ def run_janssen(unit):
                         c.cat("janssen_cases")
                         c.case([hs, fp, mean, wtype, w, off])
                         try:
-                            if wtype == "u10":
-                                z = gen.roughness(da(s1, [w]), da(s1, [wd]), s1, wind_speed_input_type="u10")
+                            if wtype in ("u10", "ustar"):
+                                z = gen.roughness(da(s1, [w]), da(s1, [wd]), s1, wind_speed_input_type=wtype)
                             else:
                                 z = janssen_roughness_length(da(s1, [w]), s1, balance, da(s1, [wd]))
                             z = float(np.asarray(z.values).ravel()[0])
@@ -387,6 +433,16 @@ def run_janssen(unit):
                                         f"Janssen roughness raised {type(exc).__name__}: {exc}",
                                         traceback=traceback.format_exc()[-1500:])
                             continue
+                        if wtype == "friction_velocity":
+                            z_fv[(w, off)] = z
+                        elif wtype == "ustar":
+                            c.cat("janssen_ustar_alias_compared")
+                            zf = z_fv.get((w, off))
+                            if zf is not None and not (z == zf or (z != z and zf != zf)):
+                                c.violation(dict(key, check="ustar_alias"),
+                                            f'roughness for wind_speed_input_type="ustar" is {z!r} but {zf!r} for '
+                                            f'"friction_velocity" (documented aliases) [{shape} Hs={hs} fp={fp} mean={mean} '
+                                            f"width={width} depth={depth} u*={w} offset={off}]", z0_ustar=z, z0_friction_velocity=zf)
                         if z != z:
                             c.cat("janssen_result_missing")
                             continue
@@ -402,7 +458,7 @@ def run_janssen(unit):
                         # evaluates them one after another; an exception means one point is not evaluable)
                         try:
                             st = gen.stress(sN, da(sN, np.full(NSCAN, w)), da(sN, np.full(NSCAN, wd)),
-                                            roughness_length=da(sN, zscan), wind_speed_input_type=wtype)
+                                            roughness_length=da(sN, zscan), wind_speed_input_type=stype)
                             tau = np.asarray(st["stress"].values, dtype=float)
                         except Exception:  # noqa
                             c.cat("janssen_scan_not_evaluable")
@@ -417,7 +473,7 @@ def run_janssen(unit):
                             continue
                         try:
                             st = gen.stress(s1, da(s1, [w]), da(s1, [wd]), roughness_length=da(s1, [z]),
-                                            wind_speed_input_type=wtype)
+                                            wind_speed_input_type=stype)
                             tz = float(np.asarray(st["stress"].values).ravel()[0])
                         except Exception:  # noqa
                             c.cat("janssen_returned_value_not_evaluable")
@@ -464,5 +520,156 @@ def finalize(coverage, results, tier):
     coverage.update(agg)
 
 
+# ------------------------------------------------------------------------------------------
+# WAM tail stress: independent transcription (IFS documentation Cy47r1 part VII ch. 5, as restated in the
+# docstrings of wam_tail_stress.py; plain numpy/math, nothing imported from the library)
+# ------------------------------------------------------------------------------------------
+BETAMAX = 1.52
+ZALPHA = 0.006
+CHARNOCK_ST4 = 0.01
+TAIL_USTAR = [0.26, 0.65, 1.0, 1.3, 1.6, 2.0, 2.4, 2.6, 2.8, 3.2, 4.0, 5.2, 6.5, 7.8]   # u* w_max/g = 0.1 ... 3 at 0.6 Hz
+TAIL_U10 = [5.0, 10.0, 20.0, 33.0, 45.0, 60.0, 80.0]
+TAIL_Z0 = [1e-5, 1e-4, 1e-3, 1e-2, 5e-2, 2e-1]
+
+
+def log_z(x, ceff):
+    return math.log(ceff) + 2.0 * x + KAPPA / (math.exp(x) + ZALPHA)
+
+
+def boole(x0, ceff):
+    v = []
+    for t in (1.0, 0.75, 0.5, 0.25, 0.0):
+        h = log_z(x0 * t, ceff)
+        v.append(h ** 4 * math.exp(h))
+    return 2.0 / 45.0 * (-x0 / 4.0) * (7 * v[0] + 32 * v[1] + 12 * v[2] + 32 * v[3] + 7 * v[4])
+
+
+def tail_frequency_integral(lower_bound, ceff):
+    """(integral, tolerance, status).  x0 = first zero of log Z on (-10, 0) (the library finds it with a Newton
+    solve that stops on a 1e-4 step; the tolerance propagates an x0 error of 2e-4 through Boole's rule), clamped
+    to ln(lower_bound); 0 if the integration interval is empty or log Z has no zero (Z >= 1 everywhere)."""
+    # stationary points of log Z: 2 (y + a)^2 = kappa y, y = e^x
+    disc = (KAPPA - 4 * ZALPHA) ** 2 - 16 * ZALPHA ** 2
+    if disc <= 0:
+        return 0.0, 0.0, "not_comparable"
+    ymin = ((KAPPA - 4 * ZALPHA) + math.sqrt(disc)) / 4.0
+    ymax = ((KAPPA - 4 * ZALPHA) - math.sqrt(disc)) / 4.0
+    xmin, xmax = math.log(ymin), math.log(ymax)
+    if log_z(xmin, ceff) > 0.0:
+        return 0.0, 0.0, "no_zero"
+    if not (log_z(xmax, ceff) > 0.0 and xmax > -10.0):
+        return 0.0, 0.0, "not_comparable"
+    a, b = xmax, xmin   # log Z decreases from > 0 to <= 0
+    for _ in range(200):
+        m = 0.5 * (a + b)
+        if log_z(m, ceff) > 0:
+            a = m
+        else:
+            b = m
+    x0 = 0.5 * (a + b)
+    llb = math.log(lower_bound)
+    if llb > x0 + 2e-4:
+        if llb > 0.0:
+            return 0.0, 0.0, "empty_interval"
+        return boole(llb, ceff), 0.0, "clamped"
+    if llb > x0 - 2e-4:
+        return 0.0, 0.0, "not_comparable"   # clamp decision within the solver tolerance
+    i0 = boole(x0, ceff)
+    tol = max(abs(boole(x0 + 2e-4, ceff) - i0), abs(boole(x0 - 2e-4, ceff) - i0))
+    return i0, tol, "zero"
+
+
+def run_tail(unit):
+    import xarray
+    from ocean_science_utilities.wavephysics.balance.factory import create_wind_source_term
+
+    c = Collector()
+    c.MAX_LISTED = 5000
+    g = unit["grid"]
+    f, d = grid_axes(g)
+    nd = len(d)
+    dd = 360.0 / nd
+    wmax = 2 * math.pi * f[-1]
+    gen = create_wind_source_term("st4")
+    depth = float(unit["depth"])
+    dkey = "inf" if math.isinf(depth) else depth
+    winds = [("friction_velocity", u) for u in TAIL_USTAR] + [("ustar", u) for u in TAIL_USTAR[::3]] \
+        + [("u10", u) for u in TAIL_U10]
+    combos = [(wt, w, z0, off) for wt, w in winds for z0 in TAIL_Z0 for off in OFFSETS]
+    worst = 0.0
+    for shape in unit["shapes"]:
+        for hs in HS:
+            for fp in FP:
+                mean, width = unit["mean"], unit["width"]
+                E = frequency_shape(shape, f, fp, hs)[:, None] * raised_cosine(d, mean, width)[None, :]
+                for wt in ("friction_velocity", "ustar", "u10"):
+                    cs = [x for x in combos if x[0] == wt]
+                    n = len(cs)
+                    sN = make_2d(f, d, np.broadcast_to(E, (n,) + E.shape).copy(), depth=depth)
+
+                    def da(x):
+                        return xarray.DataArray(np.asarray(x, dtype=float), dims=sN.dims_space_time,
+                                                coords=sN.coords_space_time)
+
+                    wd = np.array([(mean + x[3]) % 360.0 for x in cs])
+                    try:
+                        r = gen.tail_stress(sN, da([x[1] for x in cs]), da(wd), roughness_length=da([x[2] for x in cs]),
+                                            wind_speed_input_type=wt)
+                        lib = np.asarray(r["stress"].values, dtype=float)
+                    except Exception as exc:  # noqa
+                        c.violation({"part": "tail", "grid": g, "shape": shape, "hs": hs, "fp": fp, "depth": dkey,
+                                     "wind_type": wt, "check": "raises"},
+                                    f"tail_stress raised {type(exc).__name__}: {exc}", traceback=traceback.format_exc()[-1200:])
+                        continue
+                    for k, (_, w, z0, off) in enumerate(cs):
+                        c.evaluations += 1
+                        c.cat("tail_cases")
+                        c.case([shape, hs, fp, wt, w, z0, off])
+                        us = KAPPA * w / math.log(ZREF / z0) if wt == "u10" else w
+                        ratio = us * wmax / G
+                        c.cat("tail_ratio<0.5" if ratio < 0.5 else "tail_0.5<=ratio<1" if ratio < 1 else
+                              "tail_1<=ratio<2" if ratio < 2 else "tail_ratio>=2")
+                        ceff = z0 * G / us ** 2
+                        integ, tol, status = tail_frequency_integral(ratio, ceff)
+                        if status == "not_comparable":
+                            c.cat("tail_not_comparable")
+                            continue
+                        if status == "no_zero":
+                            c.cat("tail_no_critical_height_zero")
+                        cosm = np.cos(np.radians(d - wd[k]))
+                        m = cosm > 0.0
+                        de = float(np.sum((cosm ** 2 * np.cos(np.radians(d)) * E[-1, :] * dd)[m]))
+                        dn = float(np.sum((cosm ** 2 * np.sin(np.radians(d)) * E[-1, :] * dd)[m]))
+                        const = wmax ** 5 / (2 * math.pi * G ** 2) * us ** 2 * BETAMAX / KAPPA ** 2 * RHO_AIR
+                        bg = (us ** 2 / G * CHARNOCK_ST4) ** 2 / z0 ** 2 * RHO_AIR * us ** 2
+                        cw, sw = math.cos(math.radians(wd[k])), math.sin(math.radians(wd[k]))
+
+                        def mag(i):
+                            return math.hypot(de * i * const + cw * bg, dn * i * const + sw * bg)
+
+                        ref = mag(integ)
+                        t = max(abs(mag(integ + tol) - ref), abs(mag(integ - tol) - ref)) + 1e-9 * (ref + abs(integ) * const * math.hypot(de, dn))
+                        c.cat("tail_compared")
+                        key = {"part": "tail", "grid": g, "shape": shape, "hs": hs, "fp": fp, "depth": dkey, "mean": mean,
+                               "width": width, "wind_type": wt, "wind": w, "z0": z0, "offset": off, "critical_height": status}
+                        if integ < 0:
+                            c.violation(dict(key, check="harness"), "reference tail integral negative")
+                        c.nontriv((g, shape, hs, fp, wt, w, z0, off))
+                        if not abs(lib[k] - ref) <= t:
+                            c.violation(dict(key, check="tail_stress"),
+                                        f"tail stress {lib[k]!r} differs from the reference {ref!r} (tolerance {t:.2e}); "
+                                        f"u* w_max/g = {ratio:.3g}, frequency integral of the reference {integ:.6g} ({status}) "
+                                        f"[{shape} Hs={hs} fp={fp} {wt}={w} z0={z0} offset={off} {g}]",
+                                        library=float(lib[k]), reference=ref, ustar=us, ratio=ratio)
+                        elif ref > 0:
+                            worst = max(worst, abs(lib[k] - ref) / ref)
+    c.sample({"part": "tail", "grid": g, "depth": dkey, "u_star_lattice": TAIL_USTAR, "z0_lattice": TAIL_Z0})
+    r = c.result()
+    r["stats"] = {"tail_max_relative_deviation_from_reference": worst}
+    return r
+
+
 def run_unit(unit):
-    return run_charnock(unit) if unit["kind"] == "charnock" else run_janssen(unit)
+    if unit["kind"] == "charnock":
+        return run_charnock(unit)
+    return run_tail(unit) if unit["kind"] == "tail" else run_janssen(unit)
